@@ -97,6 +97,13 @@ func items(tier string) []item {
 		add(2, mk("C/shutdown-cancelled@3", cb, "instant", "shutdown-cancelled", 3, s1))
 		add(2, mk("C/shutdown+cancel@2", cb, "sleep10", "shutdown+cancel", 2, s1))
 	}
+	// H: Shutdown called twice / from two goroutines; a client that tries to connect after the shutdown
+	for _, cb := range []int{15, 0} {
+		add(2, mk("H/shutdown-twice", cb, "sleep10", "shutdown-twice", 2, s1))
+		add(2, mk("H/shutdown-concurrent", cb, "sleep10", "shutdown-concurrent", 2, s1))
+		add(2, mk("H/dial-after-shutdown", cb, "instant", "shutdown", 3, []string{"dial", "send", "recv"}, []string{"wait-ctl", "quiesce", "dial", "send", "recv", "close"}))
+		add(1, mk("H/dial-after-cancel", cb, "instant", "cancel", 3, []string{"dial", "send", "recv"}, []string{"wait-ctl", "quiesce", "dial", "close"}))
+	}
 	// D: other client shapes
 	add(2, mk("D/idle-then-shutdown", 15, "instant", "shutdown", 3, s2))
 	add(2, mk("D/connect-close", 15, "instant", "shutdown", 1, s3))
